@@ -29,10 +29,10 @@ theorem C20_flaxmap_axes {α : Type} (net : Arr α → Arr α) (x : Arr α)
 theorem C20_flaxmap_channels {α : Type} (net : Arr α → Arr α) (d : List α) (h w c k h' w' c' : Nat) :
     ((net ⟨[1, h, w, 1], d⟩).shape = [k, h', w', c'] →
       flaxMap net ⟨[h, w], d⟩ =
-        if k = 1 ∧ c' = 1 then .ok ⟨[h', w'], (net ⟨[1, h, w, 1], d⟩).data⟩ else .error .value) ∧
+        if k = 1 ∧ c' = 1 then .ok ⟨[h', w'], (net ⟨[1, h, w, 1], d⟩).data⟩ else .error .shape) ∧
     ((net ⟨[1, h, w, c], d⟩).shape = [k, h', w', c'] →
       flaxMap net ⟨[h, w, c], d⟩ =
-        if k = 1 then .ok ⟨[h', w', c'], (net ⟨[1, h, w, c], d⟩).data⟩ else .error .value) := by
+        if k = 1 then .ok ⟨[h', w', c'], (net ⟨[1, h, w, c], d⟩).data⟩ else .error .shape) := by
   constructor
   · intro hs
     have hy : (net (canon ⟨[h, w], d⟩)).shape.length = 4 := by rw [canon_rank2, hs]; rfl
@@ -72,7 +72,7 @@ theorem C20_flaxmap_roundtrip {α : Type} (net : Arr α → Arr α) (x : Arr α)
 example : flaxMap (fun a => a) (⟨[2, 3], [1, 2, 3, 4, 5, 6]⟩ : Arr Nat) = .ok ⟨[2, 3], [1, 2, 3, 4, 5, 6]⟩ := by
   decide
 example : flaxMap (fun a => ⟨[1, 2, 3, 2], a.data ++ a.data⟩) (⟨[2, 3], [1, 2, 3, 4, 5, 6]⟩ : Arr Nat)
-    = .error .value := by decide
+    = .error .shape := by decide
 example : flaxMap (fun a => ⟨[1, 2, 3, 2], a.data ++ a.data⟩) (⟨[2, 3, 1], [1, 2, 3, 4, 5, 6]⟩ : Arr Nat)
     = .ok ⟨[2, 3, 2], [1, 2, 3, 4, 5, 6, 1, 2, 3, 4, 5, 6]⟩ := by decide
 
